@@ -38,7 +38,39 @@ import shutil
 from harness import common
 
 K = 16384
-MATCHERS = {}
+
+
+def _cands(case, same_name=True):
+    sc = case.get('scenario', {})
+    return [tf['cand'] for tf in sc.get('tfiles', []) if tf.get('kind') == 'torrent' and 'cand' in tf
+            and (not same_name or tf['cand']['name'] == sc.get('name'))]
+
+
+def _m_bytes_component(case, observed, finding):
+    """TypeError, and a same-named multi-file candidate with a bytes path component is among the torrent files"""
+    return ((observed or {}).get('res') == {'raised': 'internal:TypeError'}
+            and any(not c['single'] and any(isinstance(x, dict) for f in c['files'] for x in f[0]) for c in _cands(case)))
+
+
+def _m_separator_component(case, observed, finding):
+    """AssertionError, and a same-named multi-file candidate has a path component containing the separator
+    (and none has an entry without components: that is the other finding)"""
+    cs = _cands(case)
+    return ((observed or {}).get('res') == {'raised': 'internal:AssertionError'}
+            and any(not c['single'] and any(isinstance(x, str) and os.sep in x for f in c['files'] for x in f[0]) for c in cs)
+            and not any(not c['single'] and any(f[0] == [] for f in c['files']) for c in cs))
+
+
+def _m_empty_path(case, observed, finding):
+    """AssertionError, the torrent is a single file, and a same-named multi-file candidate consists of one
+    entry without path components"""
+    return ((observed or {}).get('res') == {'raised': 'internal:AssertionError'} and case.get('scenario', {}).get('single')
+            and any(not c['single'] and [f[0] for f in c['files']] == [[]] for c in _cands(case)))
+
+
+MATCHERS = {'bytes_component_typeerror': _m_bytes_component,
+            'separator_component_assertion': _m_separator_component,
+            'empty_path_assertion': _m_empty_path}
 MAXSZ = int(10e6)
 
 NOBODY = 65534
@@ -49,7 +81,10 @@ RULE = ('scenario = (content layout incl. clusters of > 11 tiny files per piece,
         'torrent piece-size bounds) x callback (none | passive interval 0 | passive huge interval | cancelling at '
         'each call of the passive trace); candidate kinds: faithful, renamed, size +-1, file missing/extra, one '
         'differing piece at every piece position, piece length out of bounds, permuted file order, other piece '
-        'lengths, extra per-file fields, separator inside a path component, unreadable/undecodable/invalid/'
+        'lengths, extra per-file fields, separator inside a path component, the other kind (file N <-> directory N holding N, '
+        'empty path list, two halves), paths differing by a prefix / the name component / case / normalisation form, sizes '
+        'swapped, zero-length and duplicated entries, empty / dot / dotdot / bytes components, length AND files, each alone and '
+        'in front of a faithful candidate, several same-identity candidates in one call, unreadable/undecodable/invalid/'
         'oversized torrent files, upper-case extension; non-trivial = the scenario contains a candidate that '
         'passes the name/path/size match (content is sampled); distinct = distinct (scenario, callback) tuples')
 
@@ -100,14 +135,17 @@ def cand_meta(sc, cd):
     else:
         fl = []
         for f in files:
-            d = {'length': f[1], 'path': list(f[0])}
+            # a component given as {'hex': …} is a bytes object that is not valid UTF-8
+            d = {'length': f[1], 'path': [bytes.fromhex(c['hex']) if isinstance(c, dict) else c for c in f[0]]}
             if cd.get('extra_fields'):
                 d['md5sum'] = 'a' * 32
                 d['attr'] = 'x'
             fl.append(d)
         info['files'] = fl
     model = {'name': cd['name'], 'single': cd['single'], 'pl': pl, 'hashes': hashes,
-             'files': [{'path': list(f[0]), 'size': f[1]} for f in files]}
+             'bytesPath': any(isinstance(c, dict) for f in files for c in f[0]),
+             'files': [{'path': [bytes.fromhex(c['hex']).decode('utf-8', 'replace') if isinstance(c, dict) else c
+                                 for c in f[0]], 'size': f[1]} for f in files]}
     return info, model
 
 
@@ -193,7 +231,15 @@ def build(wd, sc):
             entry = ('undecodable',)
         elif k == 'invalid':
             info, model = cand_meta(sc, tf['cand'])
-            info.pop('pieces') if tf.get('how', 0) == 0 else info.update({'piece length': 1000})
+            how = tf.get('how', 0)
+            if how == 0:
+                info.pop('pieces')
+            elif how == 1:
+                info.update({'piece length': 1000})
+            elif 'files' in info:                       # both `length` and `files`
+                info['length'] = sum(f['length'] for f in info['files'])
+            else:
+                info['files'] = [{'length': info['length'], 'path': [info['name']]}]
             with open(p, 'wb') as f:
                 f.write(benc({'info': info}))
             entry = ('invalid',)
@@ -554,6 +600,8 @@ def _layout(rng, single=False, style='std'):
             size = rng.choice([5, 5, 6, 7, 8]) * K + rng.choice([1, 123, 4321, K - 1, K // 2, 0 if i else 17])
             files.append([dirs[i] + ['%s%d.bin' % ('abcd'[i], i)], size, 'f%d' % i])
         return files
+    if style in ('one-file-dir', 'nested-same', 'unicode'):
+        return None      # needs the torrent's name: filled in by _scenario
     # clusters: more files inside one piece than the stream keeps open (CAP + 1), next to files that
     # span many pieces; the cluster sits in the first, a middle or the last piece of the stream
     nt = rng.choice([CAP + 2, CAP + 3, CAP + 6, 2 * CAP + 5])
@@ -595,9 +643,27 @@ def _tf(at, kind='torrent', cand=None, **kw):
     return d
 
 
+E_ACUTE = chr(0xe9)           # NFC; its NFD spelling is 'e' + chr(0x301)
+KIND_STYLES = ['one-file-dir', 'nested-same', 'unicode']
+
+
 def _scenario(rng, shape, single=False, style='std'):
     files = _layout(rng, single, style)
-    sc = {'name': 'single.bin' if single else rng.choice(['Content', 'My Files', 'c.d']),
+    name = 'single.bin' if single else rng.choice(['Content', 'My Files', 'c.d'])
+    sz = lambda: rng.choice([3, 5, 6]) * K + rng.choice([0, 1, 777, K - 1])  # noqa: E731
+    if not single and style == 'one-file-dir':
+        # a directory that holds exactly one file, named like the directory
+        name = rng.choice(['data.bin', 'N'])
+        files = [[[name], sz(), 'f0']]
+    elif not single and style == 'nested-same':
+        # N/N/N next to other files; a second directory level that repeats the name
+        name = 'N'
+        files = [[['N', 'N'], sz(), 'f0'], [['N', 'x.bin'], sz(), 'f1'], [['a.bin'], sz(), 'f2']]
+    elif not single and style == 'unicode':
+        name = 'Caf' + E_ACUTE
+        files = [[[E_ACUTE + 't' + E_ACUTE, 'un.bin'], sz(), 'f0'], [['deux' + E_ACUTE + '.bin'], sz(), 'f1'],
+                 [['trois.bin'], sz(), 'f2']]
+    sc = {'name': name,
           'single': single, 'files': files, 'cseed': rng.randrange(1 << 30), 'tfiles': [],
           'search': [['tree']], 'shape': shape}
     if style != 'std' and not single and rng.random() < 0.6:
@@ -757,9 +823,10 @@ def gen_scenarios(ctx, scale=1.0):
     # 1. one differing piece at every piece position (pins the sampled set exactly); both for the
     #    torrent's own order and for a permuted candidate order, and for a second piece length;
     #    on the standard layouts and on the layouts with clusters of tiny files
-    for single, style in [(False, 'std'), (True, 'std')] + [(False, s) for s in CLUSTER_STYLES]:
+    for single, style in [(False, 'std'), (True, 'std')] + [(False, s) for s in CLUSTER_STYLES + KIND_STYLES]:
         for rep in range(ctx.n(3, 12) if style == 'std' else ctx.n(1, 4)):
-            base = _scenario(rng, 'flip-every-piece' if style == 'std' else 'flip-cluster', single, style)
+            base = _scenario(rng, 'flip-every-piece' if style == 'std' else 'flip-kinds' if style in KIND_STYLES
+                             else 'flip-cluster', single, style)
             variants = [dict()]
             if not single:
                 perm = [list(f) for f in base['files']]
@@ -789,7 +856,8 @@ def gen_scenarios(ctx, scale=1.0):
             'flip-last': _cand(sc, flip=[npieces(sc) - 1]),
         }
         if not sc['single']:
-            ks['file-missing'] = _cand(sc, files=fs[:-1])
+            if len(fs) > 1:          # (an empty file list is an invalid torrent, not a candidate)
+                ks['file-missing'] = _cand(sc, files=fs[:-1])
             ks['file-extra'] = _cand(sc, files=fs + [[['zz.extra'], 3 * K + 5, 'fx']])
             ks['file-renamed'] = _cand(sc, files=[[f[0][:-1] + ['q' + f[0][-1]] if i == 1 else f[0], f[1], f[2]]
                                                   for i, f in enumerate(fs)])
@@ -805,13 +873,50 @@ def gen_scenarios(ctx, scale=1.0):
             if sc.get('extra_empty'):
                 # a candidate that lists the zero-length files too: another file set
                 ks['with-empties'] = _cand(sc, files=_sorted_files(fs + [[e, 0, 'e'] for e in sc['extra_empty']]))
+            # --- the same paths in another spelling / another list of entries (all unfaithful: to be skipped)
+            first, last = fs[0], fs[-1]
+            but = lambda i, f: [f if j == i else g for j, g in enumerate(fs)]  # noqa: E731
+            ks['prefix-added'] = _cand(sc, files=[[[sc['name']] + f[0], f[1], f[2]] for f in fs])
+            ks['name-component'] = _cand(sc, files=but(0, [[sc['name']] + first[0], first[1], first[2]]))
+            if all(len(f[0]) > 1 for f in fs):
+                ks['prefix-dropped'] = _cand(sc, files=[[f[0][1:], f[1], f[2]] for f in fs])
+            ks['case'] = _cand(sc, files=but(len(fs) - 1, [last[0][:-1] + [last[0][-1].swapcase()], last[1], last[2]]))
+            ks['name-case'] = _cand(sc, name=sc['name'].swapcase())
+            import unicodedata
+            nfd = lambda x: unicodedata.normalize('NFD', x)  # noqa: E731
+            if any(nfd(c) != c for f in fs for c in f[0]):
+                ks['nfd-paths'] = _cand(sc, files=[[[nfd(c) for c in f[0]], f[1], f[2]] for f in fs])
+            if nfd(sc['name']) != sc['name']:
+                ks['nfd-name'] = _cand(sc, name=nfd(sc['name']))
+            if len(fs) > 1 and fs[0][1] != fs[1][1]:
+                ks['sizes-swapped'] = _cand(sc, files=[[fs[0][0], fs[1][1], fs[0][2]], [fs[1][0], fs[0][1], fs[1][2]]] + fs[2:])
+            ks['zero-entry-first'] = _cand(sc, files=[[['0000.zero'], 0, 'z']] + fs)
+            ks['zero-entry-last'] = _cand(sc, files=fs + [[['zzzz.zero'], 0, 'z']])
+            ks['zero-entry-mid'] = _cand(sc, files=fs[:1] + [[first[0][:-1] + [first[0][-1] + '.zero'], 0, 'z']] + fs[1:])
+            ks['dup-entry'] = _cand(sc, files=fs + [list(last)])
+            ks['empty-component'] = _cand(sc, files=but(0, [first[0][:-1] + ['', first[0][-1]], first[1], first[2]]))
+            ks['dot-component'] = _cand(sc, files=but(0, [first[0][:-1] + ['.', first[0][-1]], first[1], first[2]]))
+            ks['dotdot-component'] = _cand(sc, files=but(0, [['q', '..'] + first[0], first[1], first[2]]))
+            # a component that is not valid UTF-8 stays a bytes object when the torrent file is read
+            bcomp = {'hex': (b'\xff\xfe' + last[0][-1].encode()).hex()}
+            ks['bytes-component'] = _cand(sc, files=but(len(fs) - 1, [last[0][:-1] + [bcomp], last[1], last[2]]))
+            ks['bytes-component-other-name'] = _cand(sc, name=sc['name'] + 'x',
+                                                     files=but(len(fs) - 1, [last[0][:-1] + [bcomp], last[1], last[2]]))
+        else:
+            # --- the other KIND with the same name, the same size and the same bytes
+            f0 = fs[0]
+            ks['as-one-file-dir'] = _cand(sc, single=False, files=[[[sc['name']], f0[1], f0[2]]])
+            ks['as-dir-other-file'] = _cand(sc, single=False, files=[[['file.bin'], f0[1], f0[2]]])
+            ks['as-dir-empty-path'] = _cand(sc, single=False, files=[[[], f0[1], f0[2]]])
+            ks['as-dir-two-halves'] = _cand(sc, single=False, files=[[['a'], f0[1] // 2, 'h0'], [['b'], f0[1] - f0[1] // 2, 'h1']])
+            ks['name-case'] = _cand(sc, name=sc['name'].swapcase())
         return ks
-    for single, style in [(False, 'std'), (True, 'std')] + [(False, s) for s in CLUSTER_STYLES]:
+    for single, style in [(False, 'std'), (True, 'std')] + [(False, s) for s in CLUSTER_STYLES + KIND_STYLES]:
         for rep in range(ctx.n(6, 40) if style == 'std' else ctx.n(1, 6)):
             base = _scenario(rng, 'kinds', single, style)
             for kname, cd in kinds(base).items():
                 sc = json.loads(json.dumps(base))
-                sc['shape'] = ('kind:' if style == 'std' else 'kind-cluster:') + kname
+                sc['shape'] = ('kind:' if style == 'std' else 'kind-layout:' if style in KIND_STYLES else 'kind-cluster:') + kname
                 sc['tfiles'] = [_tf(['tree', 'k.torrent'], cand=cd)]
                 if kname == 'pl-64k' or rng.random() < 0.25:
                     sc['plmax'] = rng.choice([2 * K, 4 * K])
@@ -824,6 +929,68 @@ def gen_scenarios(ctx, scale=1.0):
                     sc['damage'] = {'file': rng.randrange(nf), 'how': rng.choice(['delete', 'truncate', 'flipbyte']),
                                     'at': rng.randrange(5 * K)}
                 out.append(sc)
+    # 2b. every kind of odd candidate *in front of* a faithful one (explicit order: two file paths): the odd one is
+    #     a readable, valid torrent file, so it must be skipped without an error and the faithful one found —
+    #     candidates of the other kind (file N <-> directory N holding N), other spellings of the same paths,
+    #     other lists of entries, components that are empty / `.` / `..` / bytes, both `length` and `files`
+    for single, style in [(False, 'std'), (True, 'std'), (False, 'cluster-first')] + [(False, s) for s in KIND_STYLES]:
+        for rep in range(ctx.n(1, 5) if style in ('std', 'one-file-dir') else ctx.n(1, 3)):
+            base = _scenario(rng, 'odd-first', single, style)
+            ks = kinds(base)
+            good = ks['faithful']
+            for kname, cd in list(ks.items()) + [('length-and-files', None)]:
+                if kname == 'faithful':
+                    continue
+                sc = json.loads(json.dumps(base))
+                sc['shape'] = 'odd-first:' + kname
+                odd = (_tf(['tree', '1-odd.torrent'], kind='invalid', cand=good, how=2) if cd is None
+                       else _tf(['tree', '1-odd.torrent'], cand=cd))
+                sc['tfiles'] = [odd, _tf(['tree', '2-good.torrent'], cand=good)]
+                sc['spell'] = ['{S}/tree/1-odd.torrent', '{S}/tree/2-good.torrent']
+                sc['argkind'] = ['list', 'tuple', 'gen', 'pathlist'][(rep + len(kname)) % 4]
+                sc['max_cancel'] = 2
+                if kname == 'pl-64k':
+                    sc['plmax'] = 2 * K
+                sc.pop('search')
+                out.append(sc)
+    # 2c. several candidates with the torrent's identity in ONE call (whatever state the call keeps between
+    #     candidates is exposed): file orders x piece lengths x content (faithful | differing in the first / last
+    #     piece | made from the same bytes attached to other, equally sized paths), in explicit order; the last one
+    #     is faithful (must be found) or made from other content (nothing may be accepted)
+    for equal in (False, True):
+        for rep in range(ctx.n(6, 40)):
+            base = _scenario(rng, 'several', False, 'std')
+            if equal:
+                base['files'] = [[f[0], base['files'][0][1], f[2]] for f in base['files']]
+            fs = _sorted_files([list(f) for f in base['files']])
+            orders = [fs, list(reversed(fs)), fs[1:] + fs[:1]]
+
+            def swapped(order):
+                """the same entries, but the bytes of two equally sized files attached to each other's paths"""
+                i, j = 0, len(order) - 1
+                o = [list(f) for f in order]
+                o[i][2], o[j][2] = o[j][2], o[i][2]
+                return o
+
+            def pick(final):
+                order = rng.choice(orders)
+                pl = rng.choice([K, K, K, 2 * K])
+                what = rng.choice((['faithful', 'swapped'] if final else ['flip-last', 'flip-last', 'flip-first', 'swapped'])
+                                  if equal else (['faithful'] * 3 + ['flip-last'] if final else ['flip-last', 'flip-last', 'flip-first']))
+                kw = {'files': swapped(order) if what == 'swapped' else order, 'pl': pl}
+                if what == 'flip-last':
+                    kw['flip'] = [-(-sum(f[1] for f in fs) // pl) - 1]
+                elif what == 'flip-first':
+                    kw['flip'] = [0]
+                return _cand(base, **kw)
+            n = rng.randint(2, 4)
+            sc = json.loads(json.dumps(base))
+            sc['tfiles'] = [_tf(['tree', 'c%d.torrent' % i], cand=pick(i == n - 1)) for i in range(n)]
+            sc['spell'] = ['{S}/tree/c%d.torrent' % i for i in range(n)]
+            sc['argkind'] = ['list', 'tuple', 'gen'][rep % 3]
+            sc['max_cancel'] = 2
+            sc.pop('search')
+            out.append(sc)
     # 3. the search: spellings, links, permissions, many files, depth
     out += gen_search_scenarios(ctx, rng)
     # 4. search trees: mixtures of items in nested directories, several paths, odd entries, links,
@@ -957,6 +1124,9 @@ def check_result(before, res, after, rep, items, stops, what):
     # S3: completeness
     if rep['mustFind'] and not stops:
         return f'{what}: a faithful candidate is reachable but the result is {res}'
+    # S5: no torrent file — readable and valid or not — ends the search with an undocumented internal error
+    if str(res.get('raised', '')).startswith('internal:') and not rep.get('overflow'):
+        return f'{what}: the search was aborted with the undocumented error {res["raised"]}'
     return None
 
 
@@ -1073,8 +1243,9 @@ def run(ctx, drv):
         'interval is modelled as a boolean "elapsed" (0 => always, 1e9 => never); intermediate intervals depend on the clock',
         'layouts are well formed: non-empty files, pairwise distinct paths, non-empty components; the torrent was made from '
         'its path (file entries carry only length and path; zero-length files on disk are not listed by torf)',
-        'AssertionError from copy() (path component containing a separator) is undocumented; the property only demands that '
-        'the metainfo is unchanged, which is what is checked',
+        'a readable, valid torrent file must be accepted or skipped: reuse() never ends with an internal error (TypeError, '
+        'ValueError, KeyError, AssertionError …); VerifyFileSizeError / ReadError from the content check of a candidate with the '
+        'torrent\'s identity are tolerated (the local content changed after the torrent object was made)',
     ]
     corpus = []
     cdir = os.path.join(common.CORPUS_DIR, 'C18')
